@@ -974,7 +974,8 @@ def _quant(ex, st, e, kind):
     s2 = st.fork()
     for n, k in zip(names, ks):
         s2.env[n] = k
-    body = _b(ex.truth(ex.ev1(lam.body, s2), s2))
+    with binding(*ks):
+        body = _b(ex.truth(ex.ev1(lam.body, s2), s2))
     st.heap.update({a: v for a, v in s2.heap.items() if a not in st.heap})
     extra = s2.pc[len(st.pc):]
     if extra:
@@ -1481,8 +1482,28 @@ def b_sum(ex, st, args, kwargs, node):
         for x in items:
             r = scalar_binop(ex, st, "Add", r, st.get(x))
         return r
+    mc = getattr(v, "masked_const", None)
+    if mc is not None:
+        # sum(c for x in xs if cond(x)) = sum over all positions of (c if cond else 0)
+        N0, cond_at, cval = mc
+        return vec_sum(ex, st, Vec(N0, lambda k: z3.If(_b(cond_at(k)), z3.IntVal(cval), z3.IntVal(0))))
     N, elem = ex.iter_desc(v, st)
     return vec_sum(ex, st, Vec(N, elem))
+
+
+@builtin("countif")
+def sp_countif(ex, st, args, kwargs, node):
+    """countif(v, lambda x: cond): number of elements of v satisfying cond (spec language) = sum of indicators"""
+    v = st.get(args[0])
+    f = st.get(args[1])
+    N, elem = ex.iter_desc(v, st)
+
+    def ind(k):
+        outs = ex.call(f, [elem(k)], {}, st)
+        if len(outs) != 1:
+            raise SpecError("countif predicate forks")
+        return z3.If(_b(ex.truth(outs[0][1], st)), z3.IntVal(1), z3.IntVal(0))
+    return vec_sum(ex, st, Vec(N, ind))
 
 
 @builtin("slice")
